@@ -692,7 +692,7 @@ fn run_group(out: &mut Out, base: &Path, idx: usize, g: &Group, shrink_budget: &
 pub fn run(args: &Args) {
 	quiet_panics();
 	let mut out = Out::new(&args.out);
-	out.rule = "raw HTTP/1.1 GET requests (target bytes sent verbatim) against `versatiles serve` with folder / tar static sources, with and without URL prefix, and a multi-source configuration; fixture with canary files outside the roots; targets: all sequences of depth ≤3 (thorough ≤4) over a small segment alphabet (names, '.', '..', empty, %2e%2e, …) plus seeded random sequences of depth ≤6 over a large alphabet with extra leading slashes, absolute-path injections, trailing slash, ?query/#fragment; non-trivial = the path contains a '..', '.', empty, percent-encoded or backslash segment or an absolute form; distinct by case text".into();
+	out.rule = "raw HTTP/1.1 GET requests (target bytes sent verbatim) against `versatiles serve` with folder / tar static sources, with and without URL prefix, and a multi-source configuration; fixture with canary files outside the roots; targets: all sequences of depth ≤3 (thorough ≤4) over a small segment alphabet (names, '.', '..', empty, %2e%2e, …) plus seeded random sequences of depth ≤6 over a large alphabet, plus guided walks (existing files, directories and archive members perturbed by '.', empty, 'x/..', '..', partially encoded segments, dropped .br/.gz extensions) with extra leading slashes, absolute-path injections, trailing slash, ?query/#fragment; non-trivial = the path contains a '..', '.', empty, percent-encoded or backslash segment or an absolute form; distinct by case text".into();
 	std::fs::create_dir_all(&args.out).unwrap();
 	let base = std::fs::canonicalize(&args.out).unwrap().join("w");
 	let base_s = base.display().to_string();
@@ -779,6 +779,51 @@ pub fn run(args: &Args) {
 				.collect();
 			let pfx = rng.pick(&prefixes).clone();
 			targets.push(decorate(&mut rng, &base, &pfx, &segs));
+		}
+		// guided: existing files / directories / archive members, perturbed by no-op and parent segments
+		let mut known: Vec<String> = vec![];
+		for s in sources {
+			match &s.backend {
+				Backend::Folder(r) => {
+					let rp = format!("{r}/");
+					for e in &entries {
+						let p = match e { Entry::Dir(p) => p, Entry::File(p, _) => p };
+						if let Some(rel) = p.strip_prefix(&rp) {
+							known.push(format!("{}\u{1}{}", s.prefix, rel));
+						}
+					}
+				}
+				Backend::Tar(ms) => known.extend(ms.iter().map(|m| format!("{}\u{1}{}", s.prefix, m.0.trim_start_matches(['.', '/'])))),
+			}
+		}
+		for _ in 0..args.n(1200, 8000) {
+			let k = rng.pick(&known).clone();
+			let (pfx, rel) = k.split_once('\u{1}').unwrap();
+			let mut segs: Vec<String> = rel.split('/').map(|x| x.to_string()).collect();
+			if rng.chance(1, 3) {
+				// strip a precompressed extension so that the sibling lookup is exercised
+				if let Some(l) = segs.last_mut() {
+					if l.ends_with(".br") || l.ends_with(".gz") { l.truncate(l.len() - 3); }
+				}
+			}
+			for _ in 0..rng.below(3) {
+				let at = rng.below(segs.len() as u64 + 1) as usize;
+				match rng.below(6) {
+					0 => segs.insert(at, ".".into()),
+					1 => segs.insert(at, "".into()),
+					2 => { segs.insert(at, "..".into()); segs.insert(at, (*rng.pick(&["sub", "nope", "a.txt", "root"])).to_string()); }
+					3 => segs.insert(at, "..".into()),
+					4 => segs.insert(at, "%2e".into()),
+					_ => { if at < segs.len() { segs[at] = segs[at].replace('.', "%2e"); } }
+				}
+			}
+			let mut t = String::new();
+			if !pfx.is_empty() { t.push_str(norm_prefix(pfx).trim_end_matches('/')); }
+			if rng.chance(1, 10) { t.push_str(&format!("//{}/root", base.display())); }
+			t.push('/');
+			t.push_str(&segs.join("/"));
+			if rng.chance(1, 6) { t.push('/'); }
+			targets.push(t);
 		}
 		let g = Group { entries: entries.clone(), sources: sources.clone(), targets };
 		run_group(&mut out, &base, ci, &g, &mut shrink_budget);
